@@ -78,4 +78,32 @@ theorem path_json_src : path_json = "\"/resolve\"" := by decide
 theorem max_device_id_len_src : max_device_id_len = "8" := by decide
 theorem max_profile_id_len_src : max_profile_id_len = "8" := by decide
 
+/-- `dnssvc.newDeviceFinder`: the empty finder iff the server group has profiles disabled (`findIn`). -/
+theorem newfinder_cond_src : newfinder_cond = "!g.ProfilesEnabled" := by decide
+/-- `newRequestInfo` passes remote then local address to `Find` and stores the result unconditionally. -/
+theorem ri_find_args_src : ri_find_args = "ctx, req, raddr, localAddr" := by decide
+theorem ri_result_rhs_src : ri_result_rhs = "mw.deviceFinder.Find(ctx, req, raddr, localAddr)" := by decide
+/-- `Wrap` decides continuation on the stored result. -/
+theorem wrap_handle_args_src : wrap_handle_args = "ctx, ri.DeviceResult" := by decide
+/-- `addRequestInfo`: the server name comes from the TLS state only, the userinfo from a successful `BasicAuth()` only. -/
+theorem addri_conds_src : addri_conds = "r.TLS != nil | ok" := by decide
+theorem addri_sni_src : addri_sni = "r.TLS.ServerName" := by decide
+/-- DoT: the server name handed to the finder is the TLS connection state's. -/
+theorem dot_sni_src : dot_sni = "cs.ConnectionState().ServerName" := by decide
+/-- `agd.Server.HasAddr` / `BindsToInterfaces` (`Srv.hasAddr`, `Srv.bindsToInterfaces`). -/
+def hasaddr_conds_expected : String :=
+  "prefAddr == nil | bd.AddrPort == addr | p.IsSingleIP() && p.Addr() == addr.Addr() && prefAddr.Port == addr.Port()"
+set_option maxRecDepth 16384 in
+theorem hasaddr_conds_src : hasaddr_conds = hasaddr_conds_expected := by decide
+def binds_return_expected : String := "len(s.bindData) > 0 && s.bindData[0].PrefixAddr != nil"
+set_option maxRecDepth 16384 in
+theorem binds_return_src : binds_return = binds_return_expected := by decide
+/-- `newDeviceResult` / `deviceByLocalAddr`: OK only on a nil error; not-found errors are "none" resp. "unknown dedicated". -/
+theorem newres_conds_src : newres_conds = "err == nil | p == nil | isProfileDBNotFound(err)" := by decide
+theorem bylocaladdr_conds_src : bylocaladdr_conds = "err == nil | !isProfileDBNotFound(err)" := by decide
+def notfound_return_expected : String :=
+  "errorIsOpt(err, profiledb.ErrDeviceNotFound) || errorIsOpt(err, profiledb.ErrProfileNotFound)"
+set_option maxRecDepth 16384 in
+theorem notfound_return_src : notfound_return = notfound_return_expected := by decide
+
 end Agd.Tie.C03
